@@ -32,14 +32,14 @@ class Obj:
 
 
 def value(ti, key, gen):
-    return [gen + ":" + key, (gen + ":" + key).encode(), len(key) * 10 + len(gen), {"k": key, "g": gen}, Obj([gen, key])][ti]
+    return [gen + ":" + key, (gen + ":" + key).encode(), len(key) * 10 + len(gen), {"k": key, "g": gen}, Obj([gen, key]), None][ti]
 
 
-NTYPES = 5
+NTYPES = 6        # text, bytes, int, dict, pickled object, None (a value, not "no value")
 ASSUMPTIONS = [
     "key universe %s (shared prefixes, '/', '-', '~' entities, a link); pre-state = each key absent / ready / metadata-only, built "
     "through store()/store_metadata() of the cache under test (untraced); quick: first 4 keys" % KEYS,
-    "operation on any key: store(value of type text/bytes/int/dict/pickled object by symbolic index), store_metadata(status "
+    "operation on any key: store(value of type text/bytes/int/dict/pickled object/None by symbolic index), store_metadata(status "
     "'evaluation' or 'ready'), remove, clean, reads",
     "oracle (from the statement): after a successful store: contains, listed exactly once, get returns an equal value of the same type "
     "with status ready and that query; after remove/clean: get None and not contained/listed; a metadata-only write never makes "
